@@ -22,9 +22,11 @@ def assist(project, source, position, filename=None, debug=False):
     ctx = EvalCtx(project)
     ln, col = position
     line = source.lines[ln - 1][:col]
+    # what the editor replaces: the identifier characters left of the cursor
+    prefix = re.search(r'\w*$', line).group()
     if line.lstrip().startswith('from ') and ' import ' not in line:
         iname = line.rpartition(' ')[2]
-        package, sep, prefix = iname.rpartition('.')
+        package, sep, _ = iname.rpartition('.')
         if (not package or package.startswith('.')) and sep:
             package += '.'
         return prefix, list_packages(project, package, filename)
@@ -36,15 +38,14 @@ def assist(project, source, position, filename=None, debug=False):
         head, tail = marked_import
         if tail is None:
             head, tail = split_pkg(head)
-            return tail, list_packages(project, head, filename)
+            return prefix, list_packages(project, head, filename)
         else:
             plist = list_packages(project, head, filename)
             module = project.get_nmodule(head, filename)
-            return tail, sorted(set(plist) | set(module.attr_list(ctx)))
+            return prefix, sorted(set(plist) | set(module.attr_list(ctx)))
 
     scope = extract_scope(source, project)
 
-    prefix = re.split(r'(\.|\s|\()', line)[-1]
     attr = get_marked_atribute(source.tree)
     names = {}
     if attr:
